@@ -700,3 +700,24 @@ pub fn cmd_tamper(args: &[String]) {
     rep.add("rows", rows.len() as u64);
     rep.write(&args[1]);
 }
+
+/// fixed operands for vector files (secretbox with the TLA+ reference's key / nonce / message)
+pub fn mk_ops_fixed(key: &[u8; 32], nonce: &[u8], msg: &[u8]) -> Ops {
+    let mut rng = Rng::new(7);
+    let mut o = mk_ops(&mut rng, 0);
+    o.key = *key;
+    o.nonce.copy_from_slice(&nonce[..24]);
+    o.msg = msg.to_vec();
+    o
+}
+/// every dryoc route to a secretbox ciphertext, and libsodium's
+pub fn secretbox_impls(o: &Ops) -> (Vec<(String, Result<Vec<u8>, String>)>, Option<Vec<u8>>) {
+    let mut v = vec![];
+    for var in ["easy", "detached", "easy_inplace", "obj_to_bytes", "obj_into_vec", "obj_parts"] {
+        for (name, f) in enc_impls("secretbox", var) {
+            if name.starts_with("sodium") { continue; }
+            v.push((name.to_string(), f(o)));
+        }
+    }
+    (v, so_sb_easy(o).ok())
+}
